@@ -138,5 +138,8 @@ def obs_flat(g):
             ents.append(c + "=" + A_.join(sorted(wl(x) for x in getattr(l, c))))
         back.append(wl(l) + C_ + C_.join(ents))
     back.sort()
+    # path.links: the link every step of a GFA1 path is bound to, with its orientation flag
+    plinks = sorted(wl(p) + C_ + A_.join(wl(ol.line) + " " + ol.orient for ol in p.links)
+                    for p in lines if p.record_type == "P" and not p.virtual)
     return B_.join(["ver=" + str(g.version), "text=" + A_.join(text), "names=" + A_.join(names),
-                    "virt=" + A_.join(virt), "back=" + (B_ + B_).join(back)])
+                    "virt=" + A_.join(virt), "back=" + (B_ + B_).join(back), "plinks=" + (B_ + B_).join(plinks)])
